@@ -490,11 +490,26 @@ fn writer_tour(case: &Value) {
     println!("{}", serde_json::to_string(&json!({"solution": written})).unwrap());
 }
 
+/// Validation replay: the problem document is read by the real pragmatic reader; the reported error codes are printed.
+fn job_rules(case: &Value) {
+    use vrp_pragmatic::format::problem::PragmaticProblem;
+    let problem_json = case["problem"].to_string();
+    let matrix_json = case["matrix"].to_string();
+    let codes: Vec<String> = match (problem_json, vec![matrix_json]).read_pragmatic() {
+        Ok(_) => vec![],
+        Err(errors) => errors.errors.iter().map(|e| e.code.clone()).collect(),
+    };
+    println!("{}", serde_json::to_string(&json!({"codes": codes})).unwrap());
+}
+
 fn main() {
     let path = std::env::args().nth(1).expect("usage: verif-replay <case.json>");
     let case: Value = serde_json::from_str(&std::fs::read_to_string(path).unwrap()).unwrap();
     if case["kind"] == "writer_tour" {
         return writer_tour(&case);
+    }
+    if case["kind"] == "job_rules" {
+        return job_rules(&case);
     }
     if case["kind"] == "goal_order" {
         return goal_order(&case);
